@@ -435,6 +435,9 @@ def check_image(ctx, stream, case, which, r):
     c['layout'] = which
     bad = False
     if r['wf']:
+        if r.get('wf_c01'):
+            # in the domain of the Lean theorem segment_view_eq_section_view (DynDesc.WF, per layout)
+            ctx.out.count('%s:%s:WF-theorem-domain' % (stream, which))
         a, b = (impl, expect) if r['wf_count'] else (drop_sym(impl), drop_sym(expect))
         if a != b:
             ctx.out.violation('property', stream, c, expect=b, got=a, model=model)
